@@ -26,6 +26,9 @@ constexpr int URANDOM_FD = FD_BASE - 7;
 static int g_urandom_mode = 0;
 static uint64_t g_urandom_seed = 0;
 static uint64_t g_urandom_pos = 0;
+static std::vector<int> g_urandom_script;
+static size_t g_urandom_script_pos = 0;
+static bool g_urandom_scripted = false;
 
 struct FakeDir {
   std::shared_ptr<Inode> ino;
@@ -42,6 +45,9 @@ void reset() {
   g_world.root = std::make_shared<Inode>();
   g_world.root->kind = Kind::DIR;
   g_urandom_pos = 0;
+  g_urandom_scripted = false;
+  g_urandom_script.clear();
+  g_urandom_script_pos = 0;
 }
 
 void calls_reset() { g_world.calls = Calls(); }
@@ -201,6 +207,7 @@ static OpenFile* live_fd(int fd) {
 // ------------------------------------------------------------------ urandom
 
 uint8_t urandom_byte(int mode, uint64_t seed, uint64_t pos) {
+  if (mode >= 100) return (uint8_t)~urandom_byte(mode - 100, seed, pos); // complement stream
   switch (mode) {
     case 0: return 0x00;
     case 1: return 0xFF;
@@ -217,7 +224,13 @@ void set_urandom(int mode, uint64_t seed) {
 }
 
 uint64_t urandom_consumed() { return g_urandom_pos; }
-void urandom_reopen_guard() {}
+void set_urandom_script(const std::vector<int>& script) {
+  g_urandom_script = script;
+  g_urandom_script_pos = 0;
+  g_urandom_scripted = true;
+  g_urandom_pos = 0;
+}
+size_t urandom_script_used() { return g_urandom_script_pos; }
 
 // ------------------------------------------------------------------ core read/write on an OpenFile
 
@@ -373,6 +386,31 @@ static ssize_t urandom_read(void* buf, size_t n) {
   if (!tick()) {
     errno = EIO;
     return -1;
+  }
+  if (g_urandom_scripted) {
+    int act = g_urandom_script_pos < g_urandom_script.size() ? g_urandom_script[g_urandom_script_pos] : 0;
+    g_urandom_script_pos++;
+    if (act < 0 && n > 0) {
+      if (act == -1) VS_FAULT("EIO@urandom");
+      else VS_FAULT("EINTR@urandom");
+      c.errors++;
+      c.last_errno = act == -1 ? EIO : EINTR;
+      vsim::ev(act == -1 ? "urandom.EIO" : "urandom.EINTR", 0, n);
+      errno = c.last_errno;
+      return -1;
+    }
+    size_t k = n;
+    if (act > 0 && (size_t)act < n) {
+      k = act;
+      c.short_reads++;
+      VS_FAULT("short_read@urandom");
+    }
+    uint8_t* p = (uint8_t*)buf;
+    for (size_t i = 0; i < k; i++) p[i] = urandom_byte(g_urandom_mode, g_urandom_seed, g_urandom_pos + i);
+    g_urandom_pos += k;
+    c.bytes_read += k;
+    vsim::ev("urandom.read", n, k);
+    return k;
   }
   const Faults& f = w.faults;
   if (f.eio && n > 0 && vsim::chance(1, f.eio, "urandom.eio")) {
